@@ -36,6 +36,17 @@ Theorem C09_fields : forall xw st i j ci cj x m a,
   result_view (call xw st (VX j) m a) = result_view (call xw st (VG i) m a).
 Proof. exact same_method_same_view. Qed.
 
+(* ... and along chains of any length (derivations proper) *)
+Theorem C09_fields_chain : forall xw st i j ci cj x ch st1 r1 st2 r2 g1 g2,
+  (forall m, xw m = base_wiring m) ->
+  nth_error st i = Some ci -> nth_error st j = Some cj -> c_x cj = Some x ->
+  view_of (c_g ci) = view_of (c_g cj) ->
+  forallb no_shortcut ch = true ->
+  derive xw st (VG i) ch = Some (st1, r1) -> derive xw st (VX j) ch = Some (st2, r2) ->
+  lookup st1 r1 = Some g1 -> lookup st2 r2 = Some g2 ->
+  view_of g2 = view_of g1.
+Proof. exact same_chain_same_view. Qed.
+
 Theorem C09_fields_orig_refuted :
   result_view (call ext_wiring_orig c09_store (VX 1) MSrcS c09_args)
   <> result_view (call ext_wiring_orig c09_store (VG 0) MSrcS c09_args).
@@ -127,3 +138,4 @@ Print Assumptions C09_print_sorted.
 Print Assumptions C09_print_name.
 Print Assumptions C09_base_rendering.
 Print Assumptions C09_no_print_fields.
+Print Assumptions C09_fields_chain.
